@@ -421,9 +421,27 @@ func genBatch(r *rng, tier, prop string, st *stats) []taggedScen {
 			}
 		}
 	}
+	// F5: the queue stays full for a while: more items than workers + queue (2 x workers) so that the
+	// submitter is blocked in Submit, and the controller sits on the first quiescent point before
+	// it releases anything.  A pool that gives up blocking after some time shows here.
+	holds := []int{150}
+	if thorough {
+		holds = []int{150, 1200}
+	}
+	for _, hold := range holds {
+		for _, c := range []int{1, 2, 3} {
+			n := 3*c + 2
+			p := batchPlan{n: n, conc: c, N: 1, fb: "default", exec: "res", shape: "results", impl: impls[c%3], postAct: 5}
+			ts := p.scen()
+			ts.sc.HoldPoint = 0
+			ts.sc.HoldMs = hold
+			ts.tags = append(ts.tags, fmt.Sprintf("queue_full_held_%dms", hold))
+			out = append(out, ts)
+		}
+	}
 	_ = prop
 	st.Exhaustive = true
-	st.Scope = fmt.Sprintf("completion orders: every permutation of release priorities for n <= %d, c in 1..4 (gated, quiescence-driven); sequential n in 0..64; per-item scripts {ok, fail-ok, fail-fail}^3 x fallback {default, user ok, user err} x N <= 2 x c in {0,2}; first failing item at every position for n <= %d, c in 0..4, both modes; cancellation before the run and inside every item/attempt for n <= %d, c in 0..4, both modes, w in {0,1ms}; random batches", maxN, maxStop, maxC)
+	st.Scope = fmt.Sprintf("queue kept full for 150 ms (thorough: also 1.2 s) with the submitter blocked; completion orders: every permutation of release priorities for n <= %d, c in 1..4 (gated, quiescence-driven); sequential n in 0..64; per-item scripts {ok, fail-ok, fail-fail}^3 x fallback {default, user ok, user err} x N <= 2 x c in {0,2}; first failing item at every position for n <= %d, c in 0..4, both modes; cancellation before the run and inside every item/attempt for n <= %d, c in 0..4, both modes, w in {0,1ms}; random batches", maxN, maxStop, maxC)
 	st.Rule = "enumeration + seeded random; non-trivial when the batch has more than one item; distinct by scenario hash"
 	return out
 }
